@@ -3,7 +3,7 @@ pid=sys.argv[1]; rnd=sys.argv[2] if len(sys.argv)>2 else "r5"
 props={json.loads(l)['id']:json.loads(l) for l in open('/verif/properties.jsonl')}
 p=props[pid]
 earlier=json.load(open('/tmp/seedtools/earlier.json')).get(pid,[])
-wt="/tmp/seed6/%s"%pid; out="/tmp/seed6/%s-out"%pid
+wt="/tmp/seed8/%s"%pid; out="/tmp/seed8/%s-out"%pid
 print(f"""You are testing how well a verification effort can detect regressions in the Python library warner/foolscap (a Twisted-based RPC / object-capability protocol: Banana token serialization, TLS connection negotiation, remote reference tracking, distributed logging). You will NOT see the verification machinery; your job is to produce realistic, subtle, property-breaking code changes that it ought to catch.
 
 THE PROPERTY (this is all you get about what is being verified):
